@@ -176,6 +176,9 @@ def r1(report, db, cg, M):
             elif hasattr(tgt, 'attrs') and wrapper_installed(fi, call, par,
                                                              M):
                 ok = True       # cipher wrapper replacing connection.socket
+            elif tgt.__class__.__name__ == 'FuncInfo' and \
+                    only_wraps(db, tgt, call, node):
+                ok = True       # a helper that only builds the wrapper
             else:
                 why = ('hands the connection socket to %s outside '
                        '_write_packet' % ast.unparse(call.func))
@@ -308,6 +311,50 @@ def fresh_frame_buffer(report, R, db, cg, pk):
     report.floor('frame-writer calls in Packet.write', n, 1)
 
 
+def only_wraps(db, callee, call, node):
+    """The in-repo function the socket is handed to does nothing with that
+    parameter but pass it to constructors of in-repo classes (the cipher
+    wrappers): it never calls a method on it, stores it or passes it on."""
+    if isinstance(callee.node, ast.Lambda):
+        return False
+    params = callee.all_params
+    if node in call.args:
+        i = call.args.index(node)
+        if callee.kind in ('instance', 'class'):
+            i += 1
+        if i >= len(callee.params):
+            return False
+        pname = callee.params[i]
+    else:
+        kw = [k for k in call.keywords if k.value is node]
+        if not kw or kw[0].arg not in params:
+            return False
+        pname = kw[0].arg
+    par = {}
+    for x in ast.walk(callee.node):
+        for c in ast.iter_child_nodes(x):
+            par[id(c)] = x
+    for x in ast.walk(callee.node):
+        if not (isinstance(x, ast.Name) and x.id == pname):
+            continue
+        if not isinstance(x.ctx, ast.Load):
+            return False
+        p = par.get(id(x))
+        c = p if isinstance(p, ast.Call) else (
+            par.get(id(p)) if isinstance(p, ast.keyword) else None)
+        if not (isinstance(c, ast.Call) and c.func is not x and isinstance(
+                c.func, (ast.Name, ast.Attribute))):
+            return False
+        try:
+            t = db.resolve_dotted(callee.module, c.func)
+            t = db.deref(t) if isinstance(t, tuple) else t
+        except AnalysisError:
+            return False
+        if t.__class__.__name__ != 'ClassInfo':
+            return False
+    return True
+
+
 def wrapper_installed(fi, call, par, M):
     """The constructor call's result is stored to <connection>.socket."""
     p = par.get(id(call))
@@ -430,20 +477,30 @@ def r3(report, db, cg, M):
             call = par[id(p)]
             if m == 'append' and fi is wpk:
                 report.ok(R, 'write_packet: append (FIFO tail)')
-            elif m == 'popleft' and fi is pop:
+            elif m == 'popleft':
                 # popped element goes straight to the frame writer, on the
-                # path summaries of _pop_packet: every path that pops and
+                # path summaries of the function: every path that pops and
                 # does not raise hands exactly that value, once, to
-                # _write_packet and uses it for nothing else
-                why = pop_use(db, cg, pop, wp)
+                # _write_packet and uses it for nothing else.  Outside
+                # _pop_packet (whose callers hold the lock, R12.2) the lock
+                # must be held at the site.
+                why = pop_use(db, cg, fi, wp, reports=fi is pop)
+                if why is None and fi is not pop and not (
+                        M.held_at_entry().get(fi) or
+                        M.site_in_lock(fi, call)):
+                    why = 'the write lock is not held where the queue is ' \
+                        'popped'
                 if why is None:
-                    report.ok(R, '_pop_packet: popleft -> _write_packet')
+                    report.ok(R, '%s: popleft -> _write_packet'
+                              % fi.qualname)
                 else:
-                    report.violation(R, 'queue:pop-use', fi.path, call,
+                    report.violation(R, 'queue:pop-use' if fi is pop else
+                                     'queue:pop-use:%s' % fi.qualname,
+                                     fi.path, call,
                                      fi.qualname, 'the popped packet is not '
                                      'handed directly to _write_packet (%s)'
                                      % why)
-            elif m in ('append', 'popleft'):
+            elif m == 'append':
                 report.violation(R, 'queue:%s:%s' % (m, fi.qualname),
                                  fi.path, call, fi.qualname,
                                  'queue.%s() outside %s' % (
@@ -459,22 +516,44 @@ def r3(report, db, cg, M):
         elif isinstance(p, (ast.If, ast.IfExp, ast.UnaryOp, ast.BoolOp,
                             ast.Compare, ast.While)):
             report.ok(R, '%s: truth test' % fi.qualname)
+        elif isinstance(p, (ast.For, ast.comprehension)) and p.iter is node:
+            report.violation(R, 'queue:iterate:%s' % fi.qualname, fi.path,
+                             node, fi.qualname, 'the queue is iterated: '
+                             'write_packet() appends to it from other '
+                             'threads without the write lock, and a deque '
+                             'that changes while it is iterated raises '
+                             'RuntimeError -- the packets not yet written '
+                             'are lost')
         else:
             report.violation(R, 'queue:use:%s' % fi.qualname, fi.path, node,
                              fi.qualname, 'unexpected use of the queue: %s'
                              % ast.unparse(p)[:60])
 
 
-def pop_use(db, cg, pop, wp):
+def segments(p):
+    """The straight-line pieces of a path summary: the path's own events
+    (a loop counts as one event) and, separately, each body path of its
+    loops."""
+    yield p, list(p.events)
+    for e in p.events:
+        if e.kind == 'loop':
+            for q in e.paths:
+                for s_ in segments(q):
+                    yield s_
+
+
+def pop_use(db, cg, pop, wp, reports=True):
     from .. import shared
     from ..pathsum import subterms
     S = shared.summariser(db, cg, opaque=[wp])
     npop = 0
-    for p in S.run(pop):
-        evs = p.flat(('call', 'store', 'setitem'))
+    for p0 in S.run(pop):
+      for p, evs in segments(p0):
+        evs = [e for e in evs if e.kind in ('call', 'store', 'setitem')]
         pops = [e for e in evs if e.kind == 'call' and e.method() == 'popleft']
         if not pops:
-            if any(e.kind == 'call' and e.calls(wp) for e in evs):
+            if reports and any(e.kind == 'call' and e.calls(wp)
+                               for e in evs):
                 return 'writes a packet that was not popped'
             continue
         if len(pops) > 1:
@@ -498,10 +577,13 @@ def pop_use(db, cg, pop, wp):
                 and any(x == r for x in subterms(t))]
             if used:
                 return 'the popped packet is also used by %r' % e
-        if p.returns and any(x == r for x in subterms(p.value)):
+        if p.returns and p.value is not None and any(
+                x == r for x in subterms(p.value)):
             return 'the popped packet is returned'
     if not npop:
         return 'no path pops'
+    if not reports:
+        return None
     # what the callers' `while self._pop_packet()` loops rely on: the result
     # says whether a packet was written
     for p in S.run(pop):
